@@ -68,7 +68,7 @@ def scratch_path(name):
     return os.path.join(_scratch_dir[0], name)
 
 
-def build(text, period, name="case.flo"):
+def build(text, period, name="case.flo", stamp=0.0):
     """-> skedder or None when the build fails (ParseError / ResolveError are reported by
     Builder.build as a False return)"""
     setup()
@@ -77,7 +77,7 @@ def build(text, period, name="case.flo"):
     with open(path, "w") as f:
         f.write(text)
     from ioflo.base import excepting
-    sk = skedding.Skedder(name="verif", period=period, real=False, filepath=path)
+    sk = skedding.Skedder(name="verif", period=period, stamp=stamp, real=False, filepath=path)
     HOOKS["build_error"] = None
     with time_limit(20):
         try:
